@@ -163,6 +163,12 @@ def step (st : Unit) (line : String) : Unit × List String :=
     | some lens, some c =>
       (st, [if truncOk lens (splitList orig) c (splitList yielded) (parseEnd endc) then "ok" else "fail"])
     | _, _ => (st, ["bad-op"])
+  | ["mon-refetch", offs, k, before, after, b, max, c, newB] =>
+    match parseInts offs, k.toNat?, before.toInt?, after.toInt?, b.toNat?, parseOptNat (if max == "N" then "-" else max), c.toNat?,
+        parseOptNat (if newB == "fail" then "-" else newB) with
+    | some offs, some k, some before, some after, some b, some max, some c, some newB =>
+      (st, [if refetchOk offs k before after b max c newB then "ok" else "fail"])
+    | _, _, _, _, _, _, _, _ => (st, ["bad-op"])
   | ["mon-reads", len, cost] => match len.toNat?, cost.toNat? with
     | some len, some cost => (st, [if readsOk len cost then "ok" else "fail"])
     | _, _ => (st, ["bad-op"])
